@@ -62,11 +62,12 @@ Proof. intros J E ls Hwf. exact (never_crash_never_fail J E Hwf ls). Qed.
 
 (* non-vacuity: a three-task, two-host, GPU-constrained run with a transfer, a fetch and a purge *)
 Example C02_nonvacuous :
-  wf_job exJ ∧ ∃ s css, run exJ exE (init exJ exE) ex_labels = Next (s, css) ∧ (dispatched s).*2 = [0; 1; 2].
-Proof.
-  split; [apply wf_job_dec_sound; vm_compute; reflexivity|].
-  eexists _, _. split; [vm_compute; reflexivity|]. vm_compute. reflexivity.
-Qed.
+  wf_job exJ ∧
+  match run exJ exE (init exJ exE) ex_labels with
+  | Next (s, _) => bool_decide ((dispatched s).*2 = [0; 1; 2]) && bool_decide (finished s = {[0; 1; 2]})
+  | _ => false
+  end = true.
+Proof. split; [apply wf_job_dec_sound; vm_compute; reflexivity|vm_compute; reflexivity]. Qed.
 
 Example C02_worker_nonvacuous :
   ∃ s, wrun (λ _, {[(0, 0); (1, 1)]}) w_init [WPub (0, 0); WSeq 2; WPurge (5, 5); WPub (1, 1)] = WOk s ∧
